@@ -338,7 +338,7 @@ func f7Shaped(dir string) string {
 		for _, s := range succsText(f) {
 			fmt.Fprintf(&in, "b %s\n", s)
 		}
-		in.WriteString("sweep 20000\n")
+		in.WriteString("sweep 2000\n")
 		names = append(names, f.Name())
 	}
 	out, err := lib.RunOracle("oracle_c07", []byte(in.String()))
@@ -349,7 +349,7 @@ func f7Shaped(dir string) string {
 		var cs, fs, n, d, cd, fd, wf int
 		var id string
 		if _, err := fmt.Sscanf(strings.NewReplacer("=", " ", ",", " ").Replace(l), "sweep %s cur %d %d fix %d %d wf %d n %d d %d", &id, &cs, &cd, &fs, &fd, &wf, &n, &d); err == nil {
-			if cd == 0 || cs > 200*(n+1) {
+			if cd == 0 || cs > 50*(n+1) {
 				return fmt.Sprintf("function %s (%d blocks): the model of lang.HasPathTo (mark on dequeue) needs more than %d loop iterations for one query where the repaired search needs %d — finding F7", id, n, cs, fs)
 			}
 		}
